@@ -159,7 +159,7 @@ func vhRefEqual(x, y any) bool {
 	}
 	if cx, ok := vhCondOf(x); ok {
 		cy, ok2 := vhCondOf(y)
-		if !ok2 || cx.Keyword() != cy.Keyword() || cx.Operator().String() != cy.Operator().String() {
+		if !ok2 || cx.Keyword() != cy.Keyword() || cx.Operator().String() != cy.Operator().String() || cx.Operator().Context() != cy.Operator().Context() {
 			return false
 		}
 		return vhRefEqual(cx.Expression(), cy.Expression())
@@ -237,7 +237,8 @@ func VH_C05(p []int) {
 	verifReach("end")
 }
 
-// Condition.IsEqual directly. p: leaf type, mut (0 none, 1 keyword, 2 operator, 3 expression type)
+// Condition.IsEqual directly. p: leaf type, mut (0 none, 1 keyword, 2 operator,
+// 3 expression type, 4 same operator text but another context)
 func VH_C05_Cond(p []int) {
 	va := []int{nondetInt(), nondetInt(), nondetInt()}
 	vb := []int{nondetInt(), nondetInt(), nondetInt()}
@@ -252,8 +253,12 @@ func VH_C05_Cond(p []int) {
 	if p[1] == 3 {
 		t2 = (p[0] + 1) % 11
 	}
-	x := Cond("kw", ComparisonOperator(ca), vhLeafC05(p[0], &vhVals{v: va}))
-	y := Cond(kw2, ComparisonOperator(cb), vhLeafC05(t2, &vhVals{v: vb}))
+	var opx, opy Operator = ComparisonOperator(ca), ComparisonOperator(cb)
+	if p[1] == 4 {
+		opx, opy = Eq, vhUserOp{"=", "assignment"}
+	}
+	x := Cond("kw", opx, vhLeafC05(p[0], &vhVals{v: va}))
+	y := Cond(kw2, opy, vhLeafC05(t2, &vhVals{v: vb}))
 	want := vhRefEqual(x, y)
 	e1, e2 := x.IsEqual(y), y.IsEqual(x)
 	verifAssert((e1 == nil) == want, "verdict")
